@@ -10,6 +10,7 @@ CONSTANTS
   MaxResets = 1
   MaxByz = 1
   Variant = "no_genesis"
+  ProbeHeights = {}
   FullChainUpTo = 0
 VIEW View
 INVARIANTS TypeOK AnswerContiguous
